@@ -112,7 +112,7 @@ func init() {
 		"leftover-present", "partial-consumption", "data+FIN-in-one-arrival", "wire-deliveries")
 	props["C02"] = simProp("whole-engine runs with write-heavy handler scripts (OnOpen reply, Write, Writev up to 1500 segments, ReadFrom+Flush, AsyncWrite(v) from callbacks and from user tasks) against peers that stall, trickle and drain, small send buffers and buffer squeeze; the peer-side stream must be a prefix of the accepted operations in effect order at all times and complete at quiescence for connections that stay open with a reading peer; OutboundBuffered checked against the kernel's count; non-trivial = at least one EAGAIN or short write;"+sig,
 		"write-EAGAIN", "write-short", "writev-multi-segment", "writev>1024-segments")
-	props["C03"] = simProp("whole-engine runs with 1..3 application tasks issuing AsyncWrite/AsyncWritev/Wake/Close/CloseWithCallback/Execute against idle and busy loops with every atomic of the poller/queue a scheduling point in part of the runs; at quiescence with the engine running every accepted request has run exactly once on the owning loop's task, per-user order of asynchronous writes, one OnTraffic per Wake; non-trivial = requests executed and more than 5 contended decisions;"+sig,
+	props["C03"] = simProp("whole-engine runs with 1..3 application tasks issuing AsyncWrite/AsyncWritev/Wake/Close/CloseWithCallback/Execute against idle and busy loops with every atomic of the poller/queue a scheduling point in part of the runs; at quiescence with the engine running every accepted request has run exactly once on the owning loop's task, per-user order of asynchronous writes (with bursts of 6..40 tiny requests on one connection in part of the runs, and half of the workers on the +small build flavour where the urgent queue degrades at 8 pending requests), one OnTraffic per Wake; non-trivial = requests executed and more than 5 contended decisions;"+sig,
 		"async-executed", "wake-traffic", "epoll_wait-blocked")
 	props["C04"] = simProp("whole-engine runs mixing every close cause (peer FIN/RST, Close action, Close()/CloseWithCallback from users, EventLoop.Close, write failure, shutdown) and late requests, with canaries re-opening freed descriptor numbers; per-connection state machine (OnOpen once before OnTraffic, OnClose once iff opened, nothing after), OnClose error nil iff a local cause had been requested, CountConnections within the window of opened-closed; non-trivial = at least one connection closed;"+sig,
 		"fd-number-reused", "canary-grabbed", "close-sent-RST")
@@ -129,6 +129,12 @@ func init() {
 	props["C14"] = simProp("whole-engine runs with many short-lived connections (3..40, closes in every order, descriptor numbers re-registered immediately, canaries): inside every callback, on the loop's own task, a read-only export of that loop's registry (count, iteration, lookup of every descriptor number the run has used) must equal the harness's set of live connections of that loop; default and gc_opt (compacting matrix) builds; plus the registry driven alone through seeded histories (add/remove first,middle,last/lookup/iterate/full iterate-and-remove drain/re-registration; a few populations beyond one 65536-entry row in the thorough tier) against a plain map; non-trivial = snapshots taken and at least one removal;"+sig,
 		"registry-snapshots", "fd-number-reused")
 	props["C14"].variantsQ = []string{"default", "gc_opt"}
+	// build flavour +small (3 requests per loop round, urgent-queue threshold 8, 4 iovecs per
+	// writev, 2-event lists): the thresholds of the poller and of the write path are reachable
+	for _, id := range []string{"C02", "C03"} {
+		props[id].variantsQ = []string{"default", "default+small"}
+		props[id].variantsT = []string{"default", "default+small", "poll_opt", "poll_opt+small", "gc_opt", "poll_opt+gc_opt"}
+	}
 	props["C14"].extra = []*propCfg{{engine: "vreg", instrumented: true, variantsQ: []string{"default", "gc_opt"}, variantsT: []string{"default", "gc_opt"}}}
 	props["C15"] = simProp("whole-engine runs in reactor mode with 1..8 loops (16/64/256 in a few thorough runs), 3..40 connections opening and closing so that the vector of per-loop counts keeps changing, peers re-using source addresses (IPv4, IPv6 with zones, unix = empty name); round-robin: the i-th and (i+N)-th accepted connections share a loop and N consecutive ones are pairwise distinct; least-connections (connects serialised, atomics not scheduling points so that the balancer's scan is atomic with accept4): the chosen loop's live count at accept time is minimal; source-address hash: equal RemoteAddr strings are served by one loop; never more loops than configured; the loop is identified by the task that runs the callbacks (C05 ties descriptor I/O to it); non-trivial = an accept sequence or a least-connections decision was checked with at least two connections;"+sig,
 		"lb-sequences-checked", "lc-checks")
